@@ -99,11 +99,26 @@ type wConc struct {
 	BulkGoal int      `json:"bulkGoal"`
 	Wrap     []bool   `json:"wrap"` // a direction's sequence numbers wrap inside the conversation
 	Fragmented int    `json:"fragmented"` // packets written as two IP fragments
+	Shuffled  bool    `json:"shuffled"` // packets of a file not written in timestamp order
+	SameHosts bool    `json:"sameHosts"` // all conversations between one pair of hosts, ports with equal XOR (one reassembler bucket)
 }
 
 type wEndpoint struct {
 	ip   net.IP
 	port uint16
+}
+
+// wSameHosts: every conversation of the schedule runs between the same two hosts, with ports whose XOR is the same for
+// all of them (40000+c ^ 1000+c = 40000 ^ 1000 for c < 8): the flows share one bucket of the UDP reassembler's
+// connection table.  Chosen per world (a third of the schedules).
+func (w *wWorld) endpoints(c int, fam int) (cl, sv wEndpoint) {
+	if w.conc.SameHosts && c < wBulkBase && c < 8 {
+		if fam == 6 {
+			return wEndpoint{net.ParseIP("fd00::2"), uint16(40000 + c)}, wEndpoint{net.ParseIP("fd00::1:3"), uint16(1000 + c)}
+		}
+		return wEndpoint{net.IPv4(10, 0, 0, 2).To4(), uint16(40000 + c)}, wEndpoint{net.IPv4(10, 1, 0, 3).To4(), uint16(1000 + c)}
+	}
+	return wEndpoints(c, fam)
 }
 
 func wEndpoints(c int, fam int) (cl, sv wEndpoint) {
@@ -294,6 +309,7 @@ func wBuildWorld(s *wSchedule, stage string, bulkGoal int) (*wWorld, error) {
 	seed, _ := strconv.ParseInt(os.Getenv("VERIF_SEED"), 10, 64)
 	rng := rand.New(rand.NewSource(seed*1000003 + int64(s.Sid)*7919 + 17))
 	w.conc.Seed = seed
+	w.conc.SameHosts = (int64(s.Sid)+seed)%3 == 1
 	w.conc.BulkGoal = bulkGoal
 	w.conc.BulkN = []int{}
 	w.conc.Cls, w.conc.ISN, w.conc.Wrap = []int{}, [][2]int{}, []bool{}
@@ -335,7 +351,7 @@ func wBuildWorld(s *wSchedule, stage string, bulkGoal int) (*wWorld, error) {
 			}
 		}
 		w.conc.Wrap = append(w.conc.Wrap, wrap)
-		cl, sv := wEndpoints(i+1, cv.Fam)
+		cl, sv := w.endpoints(i+1, cv.Fam)
 		w.tuples[wKey(cl.ip, cl.port, sv.ip, sv.port)] = i + 1
 	}
 	w.conc.Link = "eth"
@@ -370,8 +386,25 @@ func wBuildWorld(s *wSchedule, stage string, bulkGoal int) (*wWorld, error) {
 			return nil, err
 		}
 	}
+	// Shuffled variant (schedules without bulk blocks): the packets of a capture file are not written in timestamp
+	// order (a capture merged from several interfaces).  Only packets with different timestamps change places: the
+	// importer orders packets by timestamp and, for equal timestamps, by their position in the file.
+	hasBulk := false
+	for _, p := range s.Wire {
+		hasBulk = hasBulk || p.K == "bulk"
+	}
+	w.conc.Shuffled = !hasBulk && (int64(s.Sid)+seed)%4 == 2
+	type heldPkt struct {
+		at   time.Time
+		data []byte
+	}
+	held := make([][]heldPkt, s.NFiles)
 	write := func(file int, at time.Time, data []byte) error {
 		w.conc.Packets[file-1]++
+		if w.conc.Shuffled {
+			held[file-1] = append(held[file-1], heldPkt{at, append([]byte(nil), data...)})
+			return nil
+		}
 		return pws[file-1].WritePacket(gopacket.CaptureInfo{Timestamp: at, CaptureLength: len(data), Length: len(data)}, data)
 	}
 	emitted := make([][]byte, len(s.Wire)) // serialised packet per wire index (for exact duplicates)
@@ -448,7 +481,7 @@ func wBuildWorld(s *wSchedule, stage string, bulkGoal int) (*wWorld, error) {
 		cv := &s.Convs[p.C-1]
 		cls := w.conc.Cls[p.C-1]
 		B := wUnitSizes[cls]
-		cl, sv := wEndpoints(p.C, cv.Fam)
+		cl, sv := w.endpoints(p.C, cv.Fam)
 		src, dst := cl, sv
 		if p.D == "s" {
 			src, dst = sv, cl
@@ -542,6 +575,24 @@ func wBuildWorld(s *wSchedule, stage string, bulkGoal int) (*wWorld, error) {
 		sinceBoundary++
 		prevAt = p.At
 	}
+	if w.conc.Shuffled {
+		for k := range held {
+			hp := held[k]
+			for round := 0; round < 3; round++ {
+				for i := 0; i+1 < len(hp); i++ {
+					if !hp[i].at.Equal(hp[i+1].at) && rng.Intn(2) == 0 {
+						hp[i], hp[i+1] = hp[i+1], hp[i]
+						i++
+					}
+				}
+			}
+			for _, x := range hp {
+				if err := pws[k].WritePacket(gopacket.CaptureInfo{Timestamp: x.at, CaptureLength: len(x.data), Length: len(x.data)}, x.data); err != nil {
+					return nil, err
+				}
+			}
+		}
+	}
 	for k := range files {
 		if err := bws[k].Flush(); err != nil {
 			return nil, err
@@ -586,7 +637,7 @@ func (w *wWorld) project(st *index.Stream) (wStream, error) {
 		if res.Conv < wBulkBase {
 			fam = w.s.Convs[res.Conv-1].Fam
 		}
-		cl, _ := wEndpoints(res.Conv, fam)
+		cl, _ := w.endpoints(res.Conv, fam)
 		res.Flip = !(cl.ip.Equal(cip) && cl.port == st.ClientPort)
 	}
 	data, err := st.Data()
